@@ -692,8 +692,15 @@ where
     }
 
     fn try_reallocate(&mut self, new_capacity: usize) -> Result<(), TryReserveError> {
+        let new_table = RawTable::try_with_capacity(new_capacity)?;
+        self.try_move_to_table(new_table)
+    }
+
+    /// Moves all entries into the given empty table, which must have
+    /// sufficient capacity for them, and makes it the table of this cache.
+    fn try_move_to_table(&mut self, mut old_table: RawTable<Entry<K, V>>)
+            -> Result<(), TryReserveError> {
         let hasher = make_hasher(&self.hash_builder);
-        let mut old_table = RawTable::try_with_capacity(new_capacity)?;
 
         // Hashing runs user code, which may panic. Compute all hashes while
         // the cache is still untouched, so that unwinding cannot leave
@@ -992,7 +999,15 @@ where
         let new_capacity = self.len().max(min_capacity);
 
         if self.capacity() > new_capacity {
-            self.reallocate(new_capacity);
+            let new_table = RawTable::with_capacity(new_capacity);
+
+            // Removed entries can leave tombstones that lower the capacity
+            // reported for the current table. A rebuilt table has none, so
+            // only move to it if that really results in less capacity.
+
+            if new_table.capacity() < self.capacity() {
+                self.try_move_to_table(new_table).unwrap();
+            }
         }
     }
 
